@@ -20,3 +20,7 @@ pub use companion::BasicDataCompanion;
 pub use basic::NoOpCompanion;
 
 pub use basic::*;
+
+#[cfg(feature = "verif_hooks")]
+pub use storage::{ReallocationStrategy, StorageBlock, StorageSettings};
+
